@@ -379,3 +379,32 @@ Definition resid_p_ref_old (n : net) (k : nat) (v : Q) (sinj : C) : Q :=
   qadd (qsub (cons_p n k v) (p_bus_old n k sinj)) (re (flows n k v sinj)).
 Definition resid_q_gen_old (n : net) (k : nat) (v : Q) (sinj : C) : Q :=
   qadd (qsub (cons_q n k v) (q_tot0_old n k sinj)) (im (flows n k v sinj)).
+
+(* ---------- generators at a q limit (run_newton_raphson_pf.py:236-239): the q-limit loop switches a limited gen off and
+   folds its PG/QG into the bus demand, bus[bi, [PD, QD]] -= gen[i, [PG, QG]], so _get_Sload scales the gen's power with
+   the ZIP voltage factor of the bus.  [n] = the net as the last Newton run sees it (limited gens have g_on = false);
+   pl, ql = total PG / fixed QG of the limited gens at bus k, which the result tables report unscaled. *)
+Definition Sload_fold (n : net) (k : nat) (v pl ql : Q) : C :=
+  if vdl n then
+    let z := zip_row n k in
+    mkC (qmul (qsub (PD n k) pl) (vdep (z_cip z) (z_czp z) v)) (qmul (qsub (QD n k) ql) (vdep (z_ciq z) (z_czq z) v))
+  else mkC (qsub (PD n k) pl) (qsub (QD n k) ql).
+Definition mism_fold_p (n : net) (k : nat) (v : Q) (sinj : C) (pl ql : Q) : Q :=
+  qsub (qmul (re sinj) (base n)) (qsub (sumf g_pg (gens_on_at n k)) (re (Sload_fold n k v pl ql))).
+Definition mism_fold_q (n : net) (k : nat) (v : Q) (sinj : C) (pl ql : Q) : Q :=
+  qadd (qmul (im sinj) (base n)) (im (Sload_fold n k v pl ql)).
+Definition resid_fold_p (n : net) (ref : list nat) (k : nat) (v : Q) (sinj : C) (pl : Q) : Q :=
+  qsub (resid_p n ref k v sinj (flows n k v sinj)) pl.
+Definition resid_fold_q (n : net) (k : nat) (v : Q) (sinj : C) (ql : Q) : Q :=
+  qsub (resid_q n k v sinj (flows n k v sinj)) ql.
+Definition qlimdef_p (n : net) (k : nat) (v pl : Q) : Q :=
+  if negb (vdl n) then 0 else
+  let z := zip_row n k in qmul pl (qadd (qmul (z_cip z) (qsub v 1)) (qmul (z_czp z) (qsub (qmul v v) 1))).
+Definition qlimdef_q (n : net) (k : nat) (v ql : Q) : Q :=
+  if negb (vdl n) then 0 else
+  let z := zip_row n k in qmul ql (qadd (qmul (z_ciq z) (qsub v 1)) (qmul (z_czq z) (qsub (qmul v v) 1))).
+(* guard: no limited generation folded into a voltage dependent bus demand *)
+Definition G01ql (n : net) (k : nat) (pl ql : Q) : bool :=
+  negb (vdl n) ||
+  (let z := zip_row n k in
+   qeqb (qmul pl (z_cip z)) 0 && qeqb (qmul pl (z_czp z)) 0 && qeqb (qmul ql (z_ciq z)) 0 && qeqb (qmul ql (z_czq z)) 0).
